@@ -186,7 +186,7 @@ def gen_cases(tier, seed):
     n = 32 if quick else 120
     for d in range(n):
         rng = cg.rng_for(seed, "C05", d)
-        bits = 10 if quick else 24
+        bits = 24
         nsh = rng.randint(1, 4)
         cens = [cg.center(rng) for _ in range(2)]
         lmax = 6 if d % 3 == 0 else 4
